@@ -278,6 +278,16 @@ theorem no_silent_drop_spec (ops : Ops σ) (isCss : σ → Bool) (compressed : B
       cases h
       exact no_swallow_body Quirks.spec rfl ops {} core {} st he
 
+/-- `no_silent_drop` (specification without media merging, ARBITRARY programs): when the
+compilation succeeds, every entry of the evaluation log — each declaration, comment and
+body-less at-rule that evaluation reached, with its selector and at-rule path — is in the
+flattened output (indeed the two sequences are equal, `C20.bubble_preserves_order`). -/
+theorem no_silent_drop (q : Quirks) (hh : q.atRuleHoists = false) (hm : q.mediaInMediaNested = true)
+    (hs : q.closeSwallows = false) (ops : Ops σ) (p : List (Core σ)) (st : St σ)
+    (h : emitTop q ops p = .ok st) (e : Entry σ) (he : e ∈ logBody q ops {} p []) :
+    e ∈ flatItems [] st.root := by
+  rw [(C20.bubble_preserves_order q hh hm hs ops p st h).1]; exact he
+
 /-! ### The deviation: `closeSwallows` -/
 
 /-- witness `2 { 3: { @media 1 { 4: 5 } } }` (an `@media` inside a nested-property block) -/
